@@ -34,6 +34,8 @@ class Run:
         if self.work.exists():
             shutil.rmtree(self.work)
         self.work.mkdir(parents=True)
+        for old in REPLAYS.glob(f"{pid}-*.json"):
+            old.unlink()
         self.violations = []      # unlisted
         self.known_hit = {}       # key -> what
         self.findings = [f for f in load_findings()
